@@ -184,7 +184,7 @@ def eval_startswith(test, data: bytes):
         return not eval_startswith(test.operand, data)
     if isinstance(test, ast.Call) and isinstance(test.func, ast.Attribute) and test.func.attr == "startswith" and src(test.func.value) == "data" and len(test.args) == 1:
         p = _c(test.args[0])
-        if isinstance(p, bytes):
+        if isinstance(p, bytes) or (isinstance(p, tuple) and p and all(isinstance(x, bytes) for x in p)):
             return data.startswith(p)
     raise AnalysisError(f"C37: _guessStringType test not recognised: {src(test)[:80]}")
 
@@ -260,37 +260,79 @@ def structural(ctx0):
             ust = ups[0]._parent
             ctx.need(isinstance(ust, ast.Assign) and isinstance(ust.targets[0], ast.Tuple) and len(ust.targets[0].elts) == 1, f"{name}: (l,) = unpack")
             lv = src(ust.targets[0].elts[0])
-            hs = _slice(ups[0].args[1])
-            cvs = [st.targets[0].id for st in f.body if isinstance(st, ast.Assign) and const_is(st.value, 0) and isinstance(st.targets[0], ast.Name)]
-            ctx.need(cvs and hs is not None, f"{name}: cursor and header slice")
-            cv = cvs[0]
-            ok = src(hs[0]) == sp_ and hs[1] is not None and hs[2] is not None and lin(hs[1]) == (frozenset({(cv, 1)}), 0) and lin(hs[2]) == (frozenset({(cv, 1)}), W)
-            ctx.check(ok, "primitive/offsets", ctx.construct(q, ust), f"the length prefix is not read from {sp_}[{cv}:{cv}+{W}]")
-            # body slice: the other slice of the source inside the loop
             loops = [st for st in f.body if isinstance(st, ast.For)]
-            ctx.need(loops, f"{name}: for loop")
+            ctx.need(len(loops) == 1 and all(isinstance(st, (ast.Assign, ast.AugAssign, ast.Expr)) for st in loops[0].body) and any(st is ust for st in loops[0].body),
+                     f"{name}: one for-loop with a straight-line body around the unpack")
             ctx.check(src(loops[0].iter) == f"range({cp})", "primitive/offsets", q + " | count", f"{name} does not iterate range({cp})")
-            bodies = [x for x in ast.walk(loops[0]) if _slice(x) and src(_slice(x)[0]) == sp_ and x is not ups[0].args[1]]
-            okb = len(bodies) == 1 and _slice(bodies[0])[1] is not None and _slice(bodies[0])[2] is not None \
-                and lin(_slice(bodies[0])[1]) == (frozenset({(cv, 1)}), W) and lin(_slice(bodies[0])[2]) == (frozenset({(cv, 1), (lv, 1)}), W)
-            ctx.check(okb, "primitive/offsets", q + " | body", f"the value is not {sp_}[{cv}+{W}:{cv}+{W}+{lv}]: bytes are skipped or shared between consecutive values")
-            adv = [st for st in ast.walk(loops[0]) if isinstance(st, ast.AugAssign) and isinstance(st.target, ast.Name) and st.target.id == cv]
-            oka = len(adv) == 1 and isinstance(adv[0].op, ast.Add) and lin(adv[0].value) == (frozenset({(lv, 1)}), W)
-            ctx.check(oka, "primitive/offsets", q + " | advance", f"the cursor does not advance by {W} + {lv}")
+            cvs = [st.targets[0].id for st in f.body if isinstance(st, ast.Assign) and const_is(st.value, 0) and isinstance(st.targets[0], ast.Name)]
+            ctx.need(len(cvs) == 1, f"{name}: one cursor initialised to 0")
+            cv = cvs[0]
+            # one round of the loop, symbolically: every local as a linear form in the cursor at the start of the round (C) and the length read (L)
+            env = {cv: (frozenset({("C", 1)}), 0)}
+
+            def lin_env(e):
+                """linear form of e with the locals of this round substituted"""
+                base = lin(e)
+                if base is None:
+                    return None
+                terms, k = dict(), base[1]
+                for nm, coef in base[0]:
+                    sub_ = env.get(nm) if nm != lv else (frozenset({("L", 1)}), 0)
+                    if sub_ is None:
+                        if nm.isidentifier():
+                            return None          # a name this round has not bound
+                        terms[nm] = terms.get(nm, 0) + coef
+                        continue
+                    for nm2, c2 in sub_[0]:
+                        terms[nm2] = terms.get(nm2, 0) + coef * c2
+                    k += coef * sub_[1]
+                return frozenset((a, b) for a, b in terms.items() if b), k
+            header = bodies = None
+            body_nodes = []
+            for st in loops[0].body:
+                # slices of the source are read with the values the locals have at this statement
+                for x in ast.walk(st):
+                    sl = _slice(x)
+                    if sl and src(sl[0]) == sp_:
+                        lo = lin_env(sl[1]) if sl[1] is not None else (frozenset(), 0)
+                        hi = lin_env(sl[2]) if sl[2] is not None else None
+                        if x is ups[0].args[1]:
+                            header = (lo, hi)
+                        else:
+                            body_nodes.append((x, lo, hi))
+                if isinstance(st, ast.Assign) and len(st.targets) == 1 and isinstance(st.targets[0], ast.Name):
+                    env[st.targets[0].id] = lin_env(st.value)
+                elif isinstance(st, ast.AugAssign) and isinstance(st.target, ast.Name) and isinstance(st.op, (ast.Add, ast.Sub)):
+                    env[st.target.id] = lin_env(ast.BinOp(left=ast.Name(id=st.target.id, ctx=ast.Load()), op=st.op, right=st.value))
+            ctx.need(header is not None and len(body_nodes) == 1, f"{name}: header slice in the unpack and one body slice of {sp_}")
+            Cf = frozenset({("C", 1)})
+            ctx.check(header == ((Cf, 0), (Cf, W)), "primitive/offsets", ctx.construct(q, ust), f"the length prefix is not read from {sp_}[cursor:cursor+{W}]")
+            okb = (body_nodes[0][1], body_nodes[0][2]) == ((Cf, W), (frozenset({("C", 1), ("L", 1)}), W))
+            ctx.check(okb, "primitive/offsets", q + " | body", f"the value is not {sp_}[cursor+{W}:cursor+{W}+{lv}]: bytes are skipped or shared between consecutive values")
+            ctx.check(env.get(cv) == (frozenset({("C", 1), ("L", 1)}), W), "primitive/offsets", q + " | advance", f"the cursor does not advance by {W} + {lv} per value")
+            # the values in order, then the unread rest
+            rest_sl = [x for st in f.body if st is not loops[0] for x in ast.walk(st) if _slice(x) and src(_slice(x)[0]) == sp_]
+            ctx.need(len(rest_sl) == 1, f"{name}: one slice of {sp_} after the loop (the rest)")
+            rs = _slice(rest_sl[0])
             ret = [st for st in f.body if isinstance(st, ast.Return)]
-            okr = False
-            if ret:
-                ops = flatten_add(ret[0].value)
-                okr = len(ops) == 2 and isinstance(ops[0], ast.Call) and dotted(ops[0].func) == "tuple" and isinstance(ops[1], ast.Tuple) and len(ops[1].elts) == 1 \
-                    and _slice(ops[1].elts[0]) and src(_slice(ops[1].elts[0])[0]) == sp_ and src(_slice(ops[1].elts[0])[1]) == cv and _slice(ops[1].elts[0])[2] is None
-                acc = ops[0].args[0].id if okr and isinstance(ops[0].args[0], ast.Name) else None
-                apps = [c for c in ast.walk(loops[0]) if isinstance(c, ast.Call) and call_name(c) == f"{acc}.append"]
-                okr = okr and len(apps) == 1
-            ctx.check(okr, "primitive/rest-returned", q, f"{name} does not return the values in order followed by the unread rest {sp_}[{cv}:]")
+            ctx.need(len(ret) == 1, f"{name}: one return")
+            apps = [c for c in ast.walk(loops[0]) if isinstance(c, ast.Call) and call_attr(c) == "append" and isinstance(c.func.value, ast.Name)]
+            ctx.need(len(apps) == 1, f"{name}: values appended to one list in the loop")
+            acc = apps[0].func.value.id
+            ops = flatten_add(ret[0].value)
+            form_a = len(ops) == 2 and isinstance(ops[0], ast.Call) and dotted(ops[0].func) == "tuple" and src(ops[0].args[0]) == acc and isinstance(ops[1], ast.Tuple) \
+                and len(ops[1].elts) == 1 and ops[1].elts[0] is rest_sl[0]
+            tail_app = [st for st in f.body if isinstance(st, ast.Expr) and isinstance(st.value, ast.Call) and call_attr(st.value) == "append" and src(st.value.func.value) == acc
+                        and st.value.args and st.value.args[0] is rest_sl[0]]
+            form_b = bool(tail_app) and len(ops) == 1 and isinstance(ops[0], ast.Call) and dotted(ops[0].func) == "tuple" and src(ops[0].args[0]) == acc \
+                and f.body.index(tail_app[0]) > f.body.index(loops[0])
+            ctx.need(form_a or form_b, f"{name}: return tuple(values) + (rest,) or values.append(rest); return tuple(values)")
+            ctx.check(src(rs[1]) == cv and rs[2] is None, "primitive/rest-returned", q, f"{name} does not return the values in order followed by the unread rest {sp_}[{cv}:]")
             if name == "getMP":
                 fb = [c for c in ast.walk(f) if isinstance(c, ast.Call) and call_name(c) == "int.from_bytes"]
-                ctx.check(len(fb) == 1 and len(fb[0].args) == 2 and const_is(fb[0].args[1], "big") and not any(k.arg == "signed" and not const_is(k.value, False) for k in fb[0].keywords)
-                          and fb[0].args[0] is bodies[0] if okb else False, "primitive/mp-unsigned-big-endian", q, "getMP does not read the body as an unsigned big-endian integer")
+                ctx.need(len(fb) == 1 and len(fb[0].args) == 2 and fb[0].args[0] is body_nodes[0][0], "getMP: int.from_bytes(<body slice>, order)")
+                ctx.check(const_is(fb[0].args[1], "big") and not any(k.arg == "signed" and not const_is(k.value, False) for k in fb[0].keywords),
+                          "primitive/mp-unsigned-big-endian", q, "getMP does not read the body as an unsigned big-endian integer")
     with abstain(ctx0, 's/primitives/MP-details', PRIM):
         ctx.need(_ok_pr, 'anchors of primitives (section skipped)')
         f = fns["MP"]
